@@ -216,7 +216,7 @@ func occupancyTrial(spec trialSpec) {
 	rec.gate.Store(nil)
 	close(gate)
 	d := <-done
-	spec.Kind = fmt.Sprintf("occupancy-%d", spec.Occupancy)
+	spec.Kind = fmt.Sprintf("%s-%d", spec.Kind, spec.Occupancy)
 	judge(spec, rec.snapshot(), d)
 	rogger.VerifResetFlush()
 	run.Eval(1)
@@ -391,6 +391,19 @@ func childMain(mode string) {
 		}
 		rogger.FlushLogger()
 		os.Exit(0)
+	case "panic-in-client-call":
+		// the panic comes from under a client call (a client filter): TarsInvoke has the same
+		// panic handling as the server side
+		app := tars.VerifNewApp()
+		app.RegisterClientFilter(func(ctx context.Context, msg *tars.Message, invoke tars.Invoke, timeout time.Duration) error {
+			for i := 0; i < k; i++ {
+				l.WriteLog([]byte(fmt.Sprintf("<T0-g0-%d>\n", i)))
+			}
+			panic("boom in a client filter")
+		})
+		sp := tars.NewServantProxy(app.NewCommunicator(), "Verif.C20.Obj@tcp -h 127.0.0.1 -p 1 -t 1000")
+		_ = sp.TarsInvoke(context.Background(), 0, "f", nil, nil, nil, &requestf.ResponsePacket{})
+		os.Exit(9)
 	case "panic-in-dispatch":
 		// the panic comes from a servant's dispatcher, through the real Protocol.Invoke: that is
 		// where a server's panics really come from
@@ -493,7 +506,7 @@ func main() {
 		return
 	}
 	run = vlib.Start("C20")
-	run.SetRule("in-process trials (flush re-armed by hook): natural (G in {1,4,32} goroutines x per-goroutine entries x raw/formatted x swept pause), forced (flusher held between its two selects while the last entry and the flush request arrive), occupancy (0,1,100,9999 entries queued at the flush request), overflow (more entries than the queue holds, gated writer); child processes: flush after >1 s process age with a slow writer, panic exit through CheckPanic with string/error/struct/runtime-error values, with the stack dump file uncreatable (argv[0] under /proc), and with the panic raised by a dispatcher under the real Protocol.Invoke; a second FlushLogger overlapping a draining one. A case is a trial; distinct = distinct (kind, parameters, recorded write count) keys.")
+	run.SetRule("in-process trials (flush re-armed by hook): natural (G in {1,4,32} goroutines x per-goroutine entries x raw/formatted x swept pause), forced (flusher held between its two selects while the last entry and the flush request arrive), occupancy (0,1,100,9999 entries queued at the flush request), overflow (more entries than the queue holds, gated writer); child processes: flush after >1 s process age with a slow writer, panic exit through CheckPanic with string/error/struct/runtime-error values, with the stack dump file uncreatable (argv[0] under /proc), and with the panic raised by a dispatcher under the real Protocol.Invoke; a second FlushLogger overlapping a draining one; occupancy and natural trials in the JSON log format. A case is a trial; distinct = distinct (kind, parameters, recorded write count) keys.")
 	run.Assume("an entry counts as 'logged before the flush' when its logging call returned before FlushLogger was called (barrier in the harness)")
 	run.Assume("a flush that takes >= the flush timeout (1 s) is not judged (inconclusive)")
 	rogger.SetLevel(rogger.DEBUG)
@@ -537,6 +550,18 @@ func main() {
 			run.Distinct(fmt.Sprintf("occupancy|%d|%d", occ, rep))
 		}
 	}
+	// the JSON log format has its own encoding path: same guarantees
+	rogger.SetFormat(rogger.Json)
+	for rep := 0; rep < run.Pick(6, 60); rep++ {
+		trial++
+		sp := trialSpec{Kind: "json-occupancy", Occupancy: []int{1, 50, 300}[rep%3], Trial: trial, Formatted: true}
+		occupancyTrial(sp)
+		run.Distinct(fmt.Sprintf("json-occupancy|%d", rep%3))
+		trial++
+		naturalTrial(trialSpec{Kind: "json-natural", Goroutines: 4, PerG: 50, Formatted: true, Spin: rep, Trial: trial})
+		run.Distinct(fmt.Sprintf("json-natural|%d", rep%7))
+	}
+	rogger.SetFormat(rogger.Text)
 	for rep := 0; rep < run.Pick(6, 60); rep++ {
 		trial++
 		doubleFlushTrial(trialSpec{Kind: "second-overlapping-flush", Occupancy: []int{1, 20, 150}[rep%3], Trial: trial, Formatted: rep%2 == 1})
@@ -553,7 +578,7 @@ func main() {
 	// child processes
 	idx := 0
 	for rep := 0; rep < run.Pick(2, 12); rep++ {
-		for _, mode := range []string{"flush", "panic-string", "panic-error", "panic-struct", "panic-runtime", "panic-string+nodump", "panic-in-dispatch"} {
+		for _, mode := range []string{"flush", "panic-string", "panic-error", "panic-struct", "panic-runtime", "panic-string+nodump", "panic-in-dispatch", "panic-in-client-call"} {
 			idx++
 			warm := 0
 			if mode == "flush" || rep%2 == 1 {
